@@ -12,14 +12,17 @@ small (the loops iterate several times inside the bound):
   have swallowed all the input and keep up to ``pend`` bytes inside its state; ``flush()``
   returns them) — ``pend`` is symbolic;
 * ``zstandard``: ``get_frame_parameters(f).content_size`` in {n, -1, 2**64-1, a lie};
-  one-shot ``decompress`` allocates the declared size and fails unless it is the truth;
+  one-shot ``decompress`` answers ``b""`` without decoding when the header declares 0, otherwise
+  allocates the declared size and fails unless it is the truth;
   ``stream_reader(f).read(k)`` returns ``min(k, remaining, q)`` bytes (q >= 1 symbolic: short
-  reads allowed), ``b""`` only at the end.
+  reads allowed), ``b""`` only at the end; on a frame whose header declares a size its blocks
+  do not have, the read that reaches the end of the frame raises instead.
 
 Decided for every n, cap, pend, q, declared size inside the bound:
   returns the plaintext  <=>  cap is None or n <= cap;   otherwise DecompressionLimitExceeded;
-  a lying frame never yields bytes; the decoder is never asked for / never produces more than
-  cap + 1 (+ pend) bytes;  identity returns its input;  compress/decompress dispatch to the
+  a lying frame never yields bytes; on the capped path the codec is never asked for "everything"
+  and never produces / allocates more than cap + one chunk (+ pend) bytes — how the decoder
+  sizes its individual requests is not judged;  identity returns its input;  compress/decompress dispatch to the
   same codec with the right level and the same gzip container.
 
 Every counterexample is replayed on the un-stubbed functions with real zlib / zstandard and
@@ -55,7 +58,10 @@ BOUNDS = (
 OUTSIDE = (
     "that zlib / zstandard invert their own compressors and honour the stated contract (replays use the real libraries); "
     "compression levels' effect on bytes; multi-member gzip / multi-frame zstd inputs; truncated or corrupt frames "
-    "(decided under C17); negative caps; the real chunk constant 65536 (structure-preserving lift used in replays only)"
+    "(decided under C17); negative caps; the real chunk constant 65536 (structure-preserving lift used in replays only); "
+    "how the decoder sizes its individual requests to the codec (only: never 'everything' with a cap set, never more than cap + one chunk materialised); "
+    "the round trip itself for every byte string rests on the libraries inverting their own compressors (real-library replay only) — "
+    "what compress_decompress_dispatch_round_trip decides is codec / level / container dispatch"
 )
 ASSUMPTIONS = [
     "codec contract stubs (zlib.decompressobj / zstandard reader, one-shot, frame parameters) as described in the module docstring",
@@ -76,7 +82,7 @@ class _Rec:
     def __init__(self) -> None:
         self.produced = 0  # decoded bytes handed out by the codec
         self.alloc = 0  # up-front allocation of a one-shot decode
-        self.bad_request = False  # a bounded call asked for more than min(chunk, cap - produced + 1) or for 0/unlimited
+        self.unlimited = False  # the codec was asked for "everything" (zlib max_length 0, reader.read() / read(-1)) on the capped path
         self.cap: int | None = None
         self.chunk = _CHUNK
 
@@ -87,9 +93,9 @@ _REC = _Rec()
 class _Frame:
     """Opaque compressed form of a hidden plaintext."""
 
-    __slots__ = ("codec", "container", "declared", "level", "plain", "truncated")
+    __slots__ = ("codec", "container", "declared", "level", "plain", "truncated", "wire")
 
-    def __init__(self, codec: str, plain: bytes, declared: int = -1, level: int = 0, container: int = 31, truncated: bool = False) -> None:
+    def __init__(self, codec: str, plain: bytes, declared: int = -1, level: int = 0, container: int = 31, truncated: bool = False, wire: int = 1) -> None:
         self.codec = codec
         self.plain = plain  # what the frame can deliver
         self.declared = declared
@@ -98,9 +104,13 @@ class _Frame:
         # True: the frame ends before its last block / trailer (``plain`` is then only the decodable prefix);
         # zlib never reports eof, zstd's one-shot API fails, zstd's reader just ends.  Used by C17 only.
         self.truncated = truncated
+        self.wire = wire  # size of the compressed form in bytes (only its length is observable: len(frame))
 
     def __bool__(self) -> bool:
         return True
+
+    def __len__(self) -> int:
+        return self.wire
 
     def __add__(self, other: object) -> "_Frame":
         if isinstance(other, _Fin):
@@ -113,14 +123,6 @@ class _Fin:
 
 
 _TAIL = b"\x01"  # the not-yet-consumed rest of the input
-
-
-def _note_request(k: int) -> None:
-    cap = _REC.cap
-    if cap is None:
-        return
-    if k <= 0 or k > _REC.chunk or k > cap - _REC.produced + 1:
-        _REC.bad_request = True
 
 
 class _GzDecompressObj:
@@ -155,10 +157,9 @@ class _GzDecompressObj:
         rem = len(frame.plain) - self._pos
         if max_length == 0:
             if _REC.cap is not None:
-                _REC.bad_request = True  # unlimited request on the capped path
+                _REC.unlimited = True  # unlimited request on the capped path
             k = rem
         else:
-            _note_request(max_length)
             k = max_length if max_length < rem else rem
         out = frame.plain[self._pos : self._pos + k]
         self._pos += k
@@ -249,13 +250,17 @@ class _ZReader:
         rem = len(self._frame.plain) - self._pos
         if size is None or size < 0:
             if _REC.cap is not None:
-                _REC.bad_request = True
+                _REC.unlimited = True
             k = rem
         else:
-            _note_request(size)
             k = size if size < rem else rem
             if self._q < k:
                 k = self._q  # short read (never 0 unless at the end)
+        d = self._frame.declared
+        if d != -1 and d != _UNKNOWN and d != len(self._frame.plain) and k == rem:
+            # a frame whose header declares a size its blocks do not have: zstd notices at the latest when the
+            # frame ends (worst case for what was materialised before: everything but the last delivery)
+            raise _real_zstd.ZstdError("zstd decompress error: Data corruption detected")
         out = self._frame.plain[self._pos : self._pos + k]
         self._pos += k
         _REC.produced += k
@@ -282,6 +287,8 @@ class _ZDecompressor:
             if max_output_size == 0:
                 raise _real_zstd.ZstdError("could not determine content size in frame header")
             d = max_output_size
+        if data.declared == 0:
+            return b""  # a header declaring zero bytes: the one-shot API answers b"" WITHOUT decoding the blocks
         _REC.alloc += d  # the one-shot API allocates the declared size up front
         n = len(data.plain)
         if data.truncated:
@@ -367,7 +374,7 @@ _BY_NAME = {e.value: e for e in _ENCODINGS}
 
 _STUB_TEXT = [
     "zlib := contract stub (decompressobj: exactly min(max_length, remaining) bytes per call, 0 = unlimited, unconsumed_tail non-empty iff more than `pend` output bytes remain, flush() returns the pending bytes; compressobj: opaque frame tagged with level and container)",
-    "zstandard := contract stub (get_frame_parameters.content_size symbolic; one-shot decompress allocates the declared size and fails unless declared == n; stream_reader.read(k) returns min(k, remaining, q) bytes, b'' only at the end; ZstdCompressor.compress declares the size)",
+    "zstandard := contract stub (get_frame_parameters.content_size symbolic; one-shot decompress returns b'' undecoded when the header declares 0, else allocates the declared size and fails unless declared == n; stream_reader.read(k) returns min(k, remaining, q) bytes, b'' only at the end, and raises at the end of a frame whose declared size is not n; ZstdCompressor.compress declares the size)",
     "_DECOMPRESS_CHUNK_BYTES := %d" % _CHUNK,
 ]
 
@@ -375,7 +382,7 @@ _STUB_TEXT = [
 def reset_rec(cap: int | None, pend: int = 0, quantum: int = 1 << 30) -> _Rec:
     _REC.produced = 0
     _REC.alloc = 0
-    _REC.bad_request = False
+    _REC.unlimited = False
     _REC.cap = cap
     _REC.chunk = _CHUNK
     _ZLIB.pend = pend
@@ -428,15 +435,17 @@ class _Meter:
         self.cap = cap
         self.produced = 0
         self.alloc = 0
-        self.bad: str | None = None
+        self.unlimited: str = ""  # explanation only: the verdict of a replay rests on produced / alloc
 
     def note(self, k: int | None, what: str) -> None:
-        if self.cap is None or self.bad:
-            return
-        if k is None or k <= 0:
-            self.bad = f"{what} asked for an unlimited amount of output on the capped path after {self.produced} bytes"
-        elif k > _REAL_CHUNK or k > self.cap - self.produced + 1:
-            self.bad = f"{what} asked for {k} bytes with {self.produced} produced (cap {self.cap}, chunk {_REAL_CHUNK})"
+        """k = None: the codec was asked for everything it can deliver."""
+        if self.cap is not None and k is None and not self.unlimited:
+            self.unlimited = f" ({what} asked for an unlimited amount of output after {self.produced} bytes)"
+
+    def over(self, slack: int = 0) -> bool:
+        """More decoded bytes materialised than the cap plus one bounded chunk (plus what zlib may still hold inside
+        its state when the input is used up: a few matches of 258 bytes, far below 8 KiB)."""
+        return self.cap is not None and (self.produced > self.cap + _REAL_CHUNK + 8192 + slack or self.alloc > self.cap + _REAL_CHUNK)
 
 
 class _MeterDO:
@@ -447,7 +456,7 @@ class _MeterDO:
         return getattr(self._real, name)
 
     def decompress(self, buf: bytes, max_length: int = 0) -> bytes:
-        self._m.note(max_length, "zlib decompress")
+        self._m.note(None if max_length == 0 else max_length, "zlib decompress")
         out = self._real.decompress(buf, max_length)  # type: ignore[attr-defined]
         self._m.produced += len(out)
         return out
@@ -480,6 +489,9 @@ class _MeterReader:
     def __exit__(self, *exc: object) -> object:
         return self._real.__exit__(*exc)  # type: ignore[attr-defined]
 
+    def __getattr__(self, name: str) -> object:
+        return getattr(self._real, name)
+
     def read(self, size: int = -1) -> bytes:
         self._m.note(None if size is None or size < 0 else size, "zstd reader.read")
         out = self._real.read(size)  # type: ignore[attr-defined]
@@ -491,13 +503,16 @@ class _MeterZD:
     def __init__(self, m: _Meter) -> None:
         self._real, self._m = _real_zstd.ZstdDecompressor(), m
 
-    def stream_reader(self, source: bytes) -> _MeterReader:
-        return _MeterReader(self._real.stream_reader(source), self._m)
+    def __getattr__(self, name: str) -> object:
+        return getattr(self._real, name)
 
-    def decompress(self, data: bytes, max_output_size: int = 0) -> bytes:
+    def stream_reader(self, source: bytes, *a: object, **k: object) -> _MeterReader:
+        return _MeterReader(self._real.stream_reader(source, *a, **k), self._m)
+
+    def decompress(self, data: bytes, max_output_size: int = 0, *a: object, **k: object) -> bytes:
         size = _real_zstd.get_frame_parameters(data).content_size
         self._m.alloc += max_output_size if size in (-1, _UNKNOWN) else size  # what the one-shot API allocates
-        out = self._real.decompress(data, max_output_size=max_output_size)
+        out = self._real.decompress(data, max_output_size, *a, **k)
         self._m.produced += len(out)
         return out
 
@@ -544,29 +559,44 @@ def _replay_cap(enc: cod.Encoding, plain: bytes, cap: int | None, mode: int, lie
             if lifted and mode == 3:
                 continue
             data = real_zstd_frame(p, mode, lie)
-            label = {0: "size-declaring zstd frame", 1: "size-less zstd frame", 2: "size-less zstd frame", 3: f"zstd frame declaring {lie} for {n} bytes"}[mode]
+            label = {0: "size-declaring zstd frame", 1: "size-less zstd frame", 2: "size-less zstd frame", 3: f"zstd frame whose header declares {lie} bytes"}[mode]
         if data is None:
             continue
         got, out, msg, m = _real_outcome(enc, data, c)
-        call = f"decompress({enc.name}, <{label} of {n} bytes>, max_output_size={c})"
+        call = f"decompress({enc.name}, <{label} holding {n} bytes>, max_output_size={c})"
         if mode == 3 and enc is cod.Encoding.ZSTD:
             if got == "ok":
                 return f"{call} returned {len(out or b'')} bytes instead of failing"
-            if got == "limit" and not (c is not None and lie > c):
-                return f"{call} raised the limit error although the header declares {lie} <= cap"
-            if c is not None and (m.alloc > c or m.produced > c):
-                return f"{call} decoded {m.produced} / allocated {m.alloc} bytes, beyond the cap"
+            if got == "limit" and not (c is not None and (lie > c or n > c)):
+                return f"{call} raised the limit error although neither the declared size {lie} nor the {n} decodable bytes exceed the cap"
+            if m.over():
+                return f"{call} decoded {m.produced} / allocated {m.alloc} bytes, beyond the cap plus one chunk{m.unlimited}"
             continue
         want = _expect(n, c)
         if got != want or (got == "ok" and out != p):
             what = f"returned {len(out or b'')} bytes ({'equal' if out == p else 'NOT equal'} to the plaintext)" if got == "ok" else f"raised {got} {msg[:80]}"
             return f"{call} {what}; expected {'the plaintext' if want == 'ok' else 'DecompressionLimitExceeded'}"
-        if c is not None:
-            if m.bad:
-                return f"{call}: {m.bad}"
-            # the cap plus one bounded chunk of decoded bytes (zlib's flush() of its pending output included)
-            if m.produced > c + _REAL_CHUNK or m.alloc > c:
-                return f"{call} materialised {m.produced} decoded bytes (one-shot allocation {m.alloc}) — more than the cap plus one chunk"
+        # the cap plus one bounded chunk of decoded bytes (zlib's flush() of its pending output included)
+        if m.over():
+            return f"{call} materialised {m.produced} decoded bytes (one-shot allocation {m.alloc}) — more than the cap plus one chunk{m.unlimited}"
+    if cap is not None and mode != 3:
+        return _replay_bomb(enc, _lift(cap), mode)
+    return None
+
+
+def _replay_bomb(enc: cod.Encoding, c: int, mode: int) -> str | None:
+    """What a decoder that loses its bound materialises: a frame of the same kind decoding to the cap plus four chunks."""
+    n = c + 4 * _REAL_CHUNK
+    p = b"\x00" * n
+    data = cod.compress(cod.Encoding.GZIP, p) if enc is cod.Encoding.GZIP else real_zstd_frame(p, mode)
+    if data is None:
+        return None
+    got, out, msg, m = _real_outcome(enc, data, c)
+    call = f"decompress({enc.name}, <{len(data)}-byte {enc.value} frame of {n} zero bytes>, max_output_size={c})"
+    if got != "limit":
+        return f"{call} {'returned ' + str(len(out or b'')) + ' bytes' if got == 'ok' else 'raised ' + got + ' ' + msg[:80]}; expected DecompressionLimitExceeded"
+    if m.over():
+        return f"{call} raised the limit error only after materialising {m.produced} decoded bytes (one-shot allocation {m.alloc}){m.unlimited}"
     return None
 
 
@@ -581,10 +611,8 @@ def _replay_gzip_pending(n: int, cap: int) -> str | None:
     call = f"decompress(GZIP, <gzip member of {n2} zero bytes without its trailer>, max_output_size={c2})"
     if got == "ok" and out is not None and len(out) > c2:
         return f"{call} returned {len(out)} bytes — more than the cap"
-    if m.bad:
-        return f"{call}: {m.bad}"
-    if m.produced > c2 + _REAL_CHUNK:
-        return f"{call} materialised {m.produced} decoded bytes"
+    if m.over():
+        return f"{call} materialised {m.produced} decoded bytes{m.unlimited}"
     return None
 
 
@@ -604,6 +632,12 @@ def _replay_zstd(args: dict) -> str | None:
 # ---------------------------------------------------------------------------
 # conditions
 # ---------------------------------------------------------------------------
+
+
+def over_materialised(rec: _Rec, cap: int, pend: int = 0) -> bool:
+    """The property-level bound: never "everything" on the capped path, never more decoded bytes than the cap plus
+    one chunk (plus what zlib already holds inside its state), never a one-shot allocation beyond that."""
+    return rec.unlimited or rec.produced > cap + _CHUNK + pend or rec.alloc > cap + _CHUNK
 
 
 def _sig(codec: str):  # noqa: ANN202
@@ -632,15 +666,15 @@ def gzip_cap_exact(plain: bytes, has_cap: bool, cap: int, pend: int) -> bool:
     except cod.DecompressionLimitExceeded:
         if c is None or n <= c:
             return False
-        # refused: the decoder was never asked for more than it needed to see the overflow
-        return not rec.bad_request and rec.produced <= c + (pend if pend > 1 else 1)
+        # refused without inflating the member beyond the cap plus a bounded chunk
+        return not over_materialised(rec, c, pend)
     except HarnessModelError:
         raise
     except Exception:  # noqa: BLE001
         return False
     if c is not None and n > c:
         return False
-    if c is not None and (rec.bad_request or rec.produced > c + pend):
+    if c is not None and over_materialised(rec, c, pend):
         return False
     return out == plain
 
@@ -663,14 +697,14 @@ def zstd_cap_exact(plain: bytes, has_cap: bool, cap: int, size_mode: int, quantu
         except cod.DecompressionLimitExceeded:
             if c is None or n <= c:
                 return False
-            return not rec.bad_request and rec.produced <= c + 1 and rec.alloc <= c
+            return not over_materialised(rec, c)
         except HarnessModelError:
             raise
         except Exception:  # noqa: BLE001
             return False
     if c is not None and n > c:
         return False
-    if c is not None and (rec.bad_request or rec.produced > c or rec.alloc > c):
+    if c is not None and over_materialised(rec, c):
         return False
     return out == plain
 
@@ -693,13 +727,13 @@ def zstd_lying_frame_never_yields(plain: bytes, has_cap: bool, cap: int, lie: in
         try:
             decompress_stubbed(cod.Encoding.ZSTD, frame, max_output_size=c)
         except cod.DecompressionLimitExceeded:
-            # only legitimate when the header itself claims more than the cap; nothing was decoded for it
-            return c is not None and lie > c and rec.produced == 0 and rec.alloc == 0
-        except (cod.DecompressionError, HarnessModelError):
+            # only legitimate when the header claims more than the cap, or the blocks really decode to more than the cap
+            return c is not None and (lie > c or len(plain) > c) and not over_materialised(rec, c)
+        except HarnessModelError:
             raise
-        except Exception:  # noqa: BLE001  (the codec's own error: undecodable)
-            return c is None or (rec.alloc <= c and rec.produced <= c)
-    return False
+        except Exception:  # noqa: BLE001  (the codec's own error, wrapped or not: undecodable)
+            return c is None or not over_materialised(rec, c)
+    return False  # bytes were returned for a frame whose header lies about them
 
 
 def _replay_identity(args: dict) -> str | None:
